@@ -274,7 +274,7 @@ def result_ret_n(obs, x):
 def call_end_n(obs, call_id):
     n = None
     for e in obs.events:
-        if e.get('call_id') == call_id and e['kind'] in ('s3.end',):
+        if e.get('call_id') == call_id and e['kind'] == 'api.ret':
             n = e['n']
     return n
 
